@@ -28,6 +28,7 @@ type bseg struct {
 	order string // enc: LE / BE / - (single byte)
 	width Affine // length in bytes (enc: constant; bytes: len(v))
 	cut   *Affine
+	unk   bool  // zero: a gap in a buffer that was also handed to a helper (may be filled there)
 	boff  int64 // bytes / byte-array enc: offset of this part within the bytes of v
 	cond  bool  // written under a condition / in a loop
 	at    ssa.Instruction
@@ -541,6 +542,8 @@ func (d *deepView) packedWrites(buf dval, depth int) ([]packedWrite, bool) {
 				if isByteSlice(a.Type()) {
 					if _, isBuf := d.sliceBase(a, di.fr, buf); isBuf {
 						if callee := calleeOrClosure2(x); callee != nil && d.inlinable(callee) && d.frameOfCall(di.fr, x) != nil {
+							// filled (perhaps) by a helper whose writes are looked for in its frame
+							d.helperFilled = true
 							continue
 						}
 						if id == "builtin.len" || id == "builtin.cap" || id == "builtin.append" || strings.HasSuffix(id, ".Write") || id == "bytes.NewBuffer" || id == "bytes.NewReader" || id == "bytes.Equal" {
@@ -601,7 +604,7 @@ chain:
 			if next < 0 {
 				return nil, false
 			}
-			out = append(out, bseg{kind: "zero", width: constAffine(next - pos.K)})
+			out = append(out, bseg{kind: "zero", width: constAffine(next - pos.K), unk: d.helperFilled})
 			pos = constAffine(next)
 			n--
 			continue
@@ -613,7 +616,7 @@ chain:
 	if !pos.equal(total) {
 		rest := total.add(pos, -1)
 		if rest.isConst() && rest.K > 0 {
-			out = append(out, bseg{kind: "zero", width: rest})
+			out = append(out, bseg{kind: "zero", width: rest, unk: d.helperFilled})
 		} else if !(rest.isConst() && rest.K == 0) {
 			return nil, false
 		}
